@@ -95,6 +95,7 @@ def oracle(s: str, multiline: bool, pre: str = '', post: str = '', cut: int | No
         with U.time_limit():
             return _oracle(s, multiline, pre, post, cut, bits)
     except U.ImplTimeout:
+        U.note_hang('oracle', (s, multiline, pre, post, cut, bits))
         return f'hang: no result within {U.IMPL_LIMIT_S:.0f} s of CPU time'
 
 
@@ -144,6 +145,7 @@ def kv_oracle(s: str, multiline: bool) -> str | None:
         with U.time_limit():
             return _kv_oracle(s, multiline)
     except U.ImplTimeout:
+        U.note_hang('kv_oracle', (s, multiline))
         return f'hang: no result within {U.IMPL_LIMIT_S:.0f} s of CPU time'
 
 
